@@ -87,6 +87,24 @@ def gen_cases(rng, tier):
             cases.append({"kind": "run", "n": n, "npol": npol, "sps": sps, "R": R, "L": L, "gamma": gamma, "P": P, "phi": phi,
                           "b2": b2, "b3": b3, "alpha": alpha, "shape": rng.choice(["random", "pulses", "nrz"]),
                           "lead0": rng.choice([0, 0, 2, 5]), "ypow": rng.choice([0.0, 0.3, 1.0]), "seed": rng.getrandbits(32)})
+    # convergence to the NLSE (first order in phi_max) against the independent fixed-step reference: a few small cases
+    # in the quick tier, pure third-order dispersion included; many in the thorough tier
+    for i in range(4 if tier == "quick" else 24):
+        gamma = rng.uniform(1.0, 4.0)
+        L = rng.uniform(5, 40)
+        P = rng.uniform(1.0, 3.0) / (gamma * L)
+        sps, R = 50, 40e9                       # fs = 2 THz, band edge w_max = 2*pi rad/ps
+        wmax = np.pi * sps * R * 1e-12
+        # accumulated linear phase at the band edge kept moderate (5..30 rad) so that the reference is well conditioned
+        ph2 = rng.uniform(5, 30) * rng.choice([-1, 1])
+        ph3 = rng.uniform(5, 30) * rng.choice([-1, 1])
+        kind = [(0, 1), (1, 1), (1, 0), (0, 1)][i % 4]     # pure third order first
+        b2 = kind[0] * ph2 * 2 / (wmax ** 2 * L)
+        b3 = kind[1] * max(-0.2, min(0.2, ph3 * 6 / (wmax ** 3 * L)))
+        cases.append({"kind": "run", "n": 64, "npol": rng.choice([1, 2]), "sps": sps, "R": R, "L": L, "gamma": gamma, "P": P,
+                      "phi": rng.choice([0.05, 0.02]), "b2": b2, "b3": b3, "alpha": rng.choice([0.0, 0.2]),
+                      "shape": "pulses", "lead0": rng.choice([0, 3]), "ypow": rng.choice([0.0, 0.5]),
+                      "seed": rng.getrandbits(32), "ref_steps": 4000})
     # dedicated boundary cases
     base = {"kind": "run", "n": 64, "npol": 1, "sps": 16, "R": 10e9, "L": 20.0, "gamma": 2.0, "P": 0.09, "phi": 0.05, "b2": -20.0,
             "b3": 0.0, "alpha": 0.2, "shape": "random", "lead0": 4, "ypow": 0.0, "seed": 7}
@@ -182,6 +200,9 @@ def run_impl(case):
                 ap = case["alpha"] / (10 / np.log(10))
                 ref = reference_nlse(np.asarray(a), res["fs"], case["L"], ap, case["b2"], case["b3"], case["gamma"], case["ref_steps"])
                 res["ref_err"] = float(np.max(np.abs(ref - y.signal)) / max(1e-300, np.max(np.abs(ref))))
+                with time_limit(240):
+                    y4 = dev.FIBER(x, **dict(kw, phi_max=case["phi"] / 4))
+                res["ref_err_quarter"] = float(np.max(np.abs(ref - y4.signal)) / max(1e-300, np.max(np.abs(ref))))
     except Timeout as e:
         res.update(status="timeout", detail=str(e))
     except Exception as e:  # noqa
@@ -325,8 +346,12 @@ def oracle(case, res):
             v.append(("C08:y-pol-empty", f"empty y-polarisation became non-zero ({res['ypol_max']:.3e}) {tag}"))
     if "ref_err" in res:
         nl = case["gamma"] * case["P"] * case["L"]
-        if res["ref_err"] > 2.0 * case["phi"] * max(1.0, nl) + 1e-6:
-            v.append(("C08:convergence", f"relative error {res['ref_err']:.3e} vs fixed-step NLSE reference exceeds C*phi_max {tag}"))
+        # "converges ... with relative error bounded by a constant times phi_max": a generous constant, and the error must
+        # actually shrink when phi_max is divided by 4 (first order predicts a factor 4; 0.6 leaves room for rounding)
+        if res["ref_err"] > 10.0 * case["phi"] * max(1.0, nl) + 1e-6:
+            v.append(("C08:convergence", f"relative error {res['ref_err']:.3e} vs fixed-step NLSE reference exceeds 10*phi_max*max(1,gamma P L) {tag}"))
+        elif res["ref_err_quarter"] > max(0.6 * res["ref_err"], 2e-4):
+            v.append(("C08:convergence-rate", f"error does not shrink with phi_max: {res['ref_err']:.3e} at phi_max, {res['ref_err_quarter']:.3e} at phi_max/4 {tag}"))
     return v
 
 
